@@ -16,7 +16,7 @@ def check(pid, technique, text, ref, note=TRUSTED):
     CHECKS[pid] = dict(technique=technique, text=text, ref=ref, note=note)
 
 
-check("C16", "TLC model check of Cursor + trace validation of ParseState events + AST/source-map conformance",
+check("C16", "TLC model check of Cursor + trace validation of ParseState events + AST (incl. tag punctuation) / source-map conformance",
       "MCCursor is model-checked exhaustively (all sources over 5 character kinds up to length 3-4, all "
       "consume/try/commit/rollback/warn interleavings); the cursor trace of every input is validated event by "
       "event against CursorTrace (line/col = fold of the text, rollbacks restore saved triples, whole input "
@@ -58,7 +58,7 @@ check("C06", "TLC exploration of Instance histories (edits x coverings, covering
       "DESIGN.md §4.4, §6 C06")
 
 
-check("C07", "TLC exploration of BMUpdate histories + Ineligible computed by the spec + replay of advertised updaters + trace validation of the collector's recorded calls against BindMap (BindMapTrace)",
+check("C07", "TLC exploration of BMUpdate histories (families UB, UC, UL) + Ineligible computed by the spec + replay of advertised updaters + trace validation of the collector's recorded calls against BindMap (BindMapTrace)",
       "TLC explores create(D0); bm(f, v) histories over family UB (eligible bindings on every channel, every "
       "unreachable position holding a field through several expression forms) and computes Ineligible(file); the "
       "harness requires the advertised keys of B to be disjoint from Ineligible and, for every advertised field, runs "
@@ -158,13 +158,13 @@ check("C10", "TLC enumeration of numeric tokens x value shapes (MCCss val) + exa
       "eps_f32 for ratios 750, 375, 0.5, 1e6 (thorough); integers exactly; other numbers within 2 eps_f32.",
       "DESIGN.md §4.6, §6 C10", CSS_NOTE)
 
-check("C17", "TLC check of the :host partition invariant on CssRewrite + replay of host families with both outputs compared",
+check("C17", "TLC check of the :host partition invariant on CssRewrite + replay of host families with both outputs, the flagged items and the places of their diagnostics (CssRewrite!Warn) compared",
       "TLC checks on every case of family host that rule ids partition between the normal output, the low-priority "
       "output and the HostSelectorCombination warnings; the real compiler's two outputs and warnings are compared with "
       "the expected ones (wrapper chains replayed in the low-priority output, [wx-host] / [is] attribute selectors).",
       "DESIGN.md §4.6, §6 C17", CSS_NOTE)
 
-check("C18", "TLC enumeration of import forms x conditions x positions (MCCss import) + placeholder decoded back and wrapper nesting compared",
+check("C18", "TLC enumeration of import forms x conditions x positions (MCCss import) + placeholder decoded back, wrapper nesting and the place of the position diagnostic (CssRewrite!Warn) compared",
       "10 paths (spaces, quotes, */, percent, non-ASCII, astral) x string/url() x layer none/bare/(x) x supports x media "
       "x sign on/off x prefix, plus imports after rules and after imports; the comment's percent-decoded body must equal "
       "the path, contain no */, stand inside the expected @layer/@supports/@media blocks; position warnings compared; "
@@ -183,7 +183,7 @@ check("C19", "TLC enumeration of MCCss families with provenance ids + trace vali
       "DESIGN.md §4.6, §6 C19, §13.8", CSS_NOTE)
 
 
-check("C01", "TLC enumeration of the WxmlGen / CssGen generator machines (all paths to a length bound, simulation walks) replayed through every entry point in isolated workers with parser-event fuel + CursorTrace validation of recorded parser traces + growth sweep",
+check("C01", "TLC enumeration of the WxmlGen / CssGen generator machines (all paths to a length bound, simulation walks) replayed through every entry point (incl. a hot update of the inline scripts followed by every emitter) in isolated workers with parser-event fuel + CursorTrace validation of recorded parser traces + growth sweep",
       "TLC checks the two generator machines well formed and connected and enumerates every path (every prefix is an input: end of "
       "input in every lexical context; classes include non-ASCII white space, NUL, astral characters, stray closers, literals around "
       "2^63 in three radices, unterminated strings/comments/urls), plus 120-step simulation walks and a nesting family to depth 64; "
